@@ -10,7 +10,7 @@ pub const MANDATORY: &[&str] = &["relation:below-base-dir", "relation:above-base
 
 const PATHS: &[&str] = &["", "/", "/a", "/a/", "/a/b", "/a/b/", "/a/b/c", "/a/c", "/x", "/a/b/c/d/", "/a//b", "/a/./b", "/a/../b", "//a", "/a/b:c", "/\u{e9}/x", "/a/%62"];
 const RPATHS: &[&str] = &["", "a", "a/", "a/b", "a/b/c", "a/c", "x", "..", "../a", "a:b", "a//b", "./a", "a/b/"];
-const PRE: &[&str] = &["s://h", "s://h2", "s:", "t://h", "s://u@h:1"];
+const PRE: &[&str] = &["s://h", "s://h2", "s:", "t://h", "s://u@h:1", "S://h", "s://H"];
 const SUF: &[&str] = &["", "?q", "#f", "?q#f"];
 
 pub fn exec(ctx: &mut Ctx, case: &Case) {
@@ -92,7 +92,7 @@ pub fn generate(ctx: &mut Ctx) {
             q.path = q.path.trim_start_matches('/').to_string();
         }
         match rng.below(10) {
-            0 => q.scheme = Some("other".into()),
+            0 => q.scheme = Some(if rng.chance(1, 2) { "other".to_string() } else { let s = p.scheme.clone().unwrap_or_default(); if s.chars().any(|c| c.is_ascii_lowercase()) { s.to_ascii_uppercase() } else { s.to_ascii_lowercase() } }),
             1 => q.authority = Some("other.host".into()),
             2 => q.authority = None,
             3 => q.query = Some("bq".into()),
